@@ -3,6 +3,7 @@ package main
 // pvc check <id>: decide one property on /repo's current tree.
 
 import (
+	"os/exec"
 	"encoding/json"
 	"sync"
 	"flag"
@@ -353,6 +354,9 @@ func cmdCheck(args []string) int {
 		os.MkdirAll(filepath.Join(verifDir, "ledger"), 0o755)
 		os.WriteFile(filepath.Join(verifDir, "ledger", id+".json"), append(data, '\n'), 0o644)
 	}
+	if *tier == "thorough" && violations == 0 && len(vac) == 0 && os.Getenv("PVC_NOSELFTEST") == "" && !*update {
+		selftest = runSelftest(id)
+	}
 	writeEvidence(id, *tier, seed, t0, reports, cfg, fts, discharged, undecided, violations)
 	fmt.Printf("property=%s tier=%s obligations=%d discharged=%d undecided=%d violations=%d wall=%.1fs\n", id, *tier, len(reports), discharged, len(undecided), violations, time.Since(t0).Seconds())
 	_ = bySolver
@@ -549,6 +553,7 @@ func writeEvidence(id, tier string, seed int, t0 time.Time, reports []oblReport,
 			"undecided":                undecided,
 			"samples":                  samples,
 			"explanation":              cfg.Note,
+			"selftest_canaries":        selftest,
 		},
 		"assumptions": assumptions,
 		"wall_s":      time.Since(t0).Seconds(),
@@ -596,4 +601,79 @@ func classOfName(n string) string {
 		return n[:i]
 	}
 	return n
+}
+
+// selftest: must-fail corpus (thorough tier). Every seeded change of /verif/seeded/expected.json that this property's
+// check is expected to catch is applied to a scratch copy of the repository's working tree and the quick check is run
+// on it (with a scratch copy of /verif, so nothing of this run is overwritten). Informational: the outcome is written to
+// the evidence and printed, it never changes the exit code (a missed canary is a weakness of the check, not a violation
+// of the repository).
+var selftest map[string]interface{}
+
+func runSelftest(id string) map[string]interface{} {
+	out := map[string]interface{}{}
+	data, err := os.ReadFile(filepath.Join(verifDir, "seeded", "expected.json"))
+	if err != nil {
+		return out
+	}
+	exp := map[string][]string{}
+	if json.Unmarshal(data, &exp) != nil {
+		return out
+	}
+	var names []string
+	for n, ids := range exp {
+		for _, x := range ids {
+			if x == id {
+				names = append(names, n)
+			}
+		}
+	}
+	sort.Strings(names)
+	if len(names) == 0 {
+		return out
+	}
+	self, err := os.Executable()
+	if err != nil {
+		return out
+	}
+	tmp, err := os.MkdirTemp("", "pvc-selftest-"+id)
+	if err != nil {
+		return out
+	}
+	defer os.RemoveAll(tmp)
+	scratchV := filepath.Join(tmp, "verif")
+	run := func(dir string, name string, args ...string) (string, error) {
+		cmd := exec.Command(name, args...)
+		cmd.Dir = dir
+		b, err := cmd.CombinedOutput()
+		return string(b), err
+	}
+	if _, err := run("/", "rsync", "-a", "--exclude", ".git", "--exclude", "engine", "--exclude", "bin", "--exclude", "evidence", "--exclude", "replays", "--exclude", "seeded", verifDir+"/", scratchV+"/"); err != nil {
+		return out
+	}
+	var detected, missed []string
+	for _, n := range names {
+		scratchR := filepath.Join(tmp, "repo")
+		os.RemoveAll(scratchR)
+		if _, err := run("/", "rsync", "-a", "--exclude", ".git", repoDir+"/", scratchR+"/"); err != nil {
+			continue
+		}
+		if o, err := run(scratchR, "patch", "-p1", "-s", "-i", filepath.Join(verifDir, "seeded", n, "patch.diff")); err != nil {
+			missed = append(missed, n+" (patch does not apply to the current tree: "+trunc(strings.TrimSpace(o), 80)+")")
+			continue
+		}
+		cmd := exec.Command(self, "check", id, "--tier", "quick")
+		cmd.Env = append(os.Environ(), "PVC_REPO="+scratchR, "PVC_VERIF="+scratchV, "PVC_NOSELFTEST=1")
+		b, _ := cmd.CombinedOutput()
+		if strings.Contains(string(b), "\nVIOLATION property="+id) || strings.HasPrefix(string(b), "VIOLATION property="+id) {
+			detected = append(detected, n)
+		} else {
+			missed = append(missed, n)
+		}
+	}
+	out["run"] = len(names)
+	out["detected"] = detected
+	out["missed"] = missed
+	fmt.Printf("SELFTEST property=%s canaries=%d detected=%d missed=%v\n", id, len(names), len(detected), missed)
+	return out
 }
